@@ -92,7 +92,7 @@ def finish(cx, t0, seed=0):
     import os as _os
     if _os.environ.get("VCHECK_VERBOSE"):
         for o in cx.obs:
-            print("   %s [%s] %s%s" % ("ok  " if o.ok else "FAIL", o.key, o.desc[:200], (" @" + o.loc) if o.loc else ""))
+            print("   %s [%s] %s%s" % ("ok  " if o.ok else "FAIL", o.key, o.desc[:int(os.environ.get("VCHECK_DESC", "200"))], (" @" + o.loc) if o.loc else ""))
     for q_, hs in (cx.meta.get("inlined_helpers") or {}).items():
         print("   NOTE new helper(s) %s inlined into %s" % (sorted(set(h.split("::")[-1] for h in hs)), q_.split("::")[-1]))
     for n in cx.notes:
